@@ -320,12 +320,14 @@ def materialise_project(root, desc, rng, backend="slurm", p_present=0.6):
     proj = Project(root, targets, hashing=False, backend=backend)
     if desc["hashing"] or rng.random() < 0.2:
         proj.set_flag("use_spec_hashes", desc["hashing"], rng)       # incl. an explicit "no"
+    # a file restored from an archive may carry the epoch as its time stamp: mtime 0 is a time stamp like any other
+    epoch = rng.choice(["", "", "", "src", "out", "out"])
     for s in desc["sources"]:
-        proj.put_file(s, stamp=BASE_T + rng.randint(1, 4))
+        proj.put_file(s, stamp=0 if (epoch == "src" and rng.random() < 0.6) else BASE_T + rng.randint(1, 4))
     for t in desc["targets"]:
         for o in t["_outs"]:
             if rng.random() < p_present:
-                proj.put_file(o, stamp=BASE_T + rng.randint(1, 4))
+                proj.put_file(o, stamp=0 if (epoch == "out" and rng.random() < 0.5) else BASE_T + rng.randint(1, 4))
     proj.stamp = BASE_T + 10
     return proj
 
@@ -549,6 +551,9 @@ def compare(p, mline):
         return bad
     if p["code"] != 0 and not (kind in ("clean", "cancel") and p.get("prompted") and p.get("answer") != "y\n") \
             and not (kind == "run" and p.get("rejected")):
+        if any(x in (p.get("err") or "") for x in ("is not provided", "not provided by", "provided by targets", "depends on itself")):
+            # the model accepts the workflow; validation (C04) does not
+            bad.append(("C04", "a well-formed workflow is rejected by `gwf %s`: %s" % (kind, p["err"][-200:])))
         bad.append(("C05" if kind in ("status", "dry") else "C03" if kind == "info" else {"run": "C02", "touch": "C16", "touchstatus": "C16", "clean": "C15", "cancel": "C17"}[kind],
                     "command failed (exit %s): %s" % (p["code"], p["err"][-200:])))
         return bad
